@@ -17,6 +17,7 @@ GROUPS = {
             Rec("GridNd", {"dimensions": LI, "torus": "Bool"}),
             Rec("CellNd", {"coordinate": LI}),
             Rec("GridCells", {"dimensions": LI, "all_cells": ("L", ("R", "CellNd"))}),
+            Rec("GridCells2d", {"all_cells": ("L", ("R", "Cell2d"))}),
         ],
         "fns": [
             # `cell.connect(self._cells[k], key)` is the effect (k, key): cells are named by their key in `_cells`
@@ -31,6 +32,11 @@ GROUPS = {
                {}, self_rec="GridCells", effects={"self._connect_single_cell_nd": ("T", ("R", "CellNd"), ("L", LI))}),
             Fn("C07", "mesa/discrete_space/grid.py", "OrthogonalVonNeumannGrid._connect_cells_nd", "vn_connect_cells_nd",
                {}, self_rec="GridCells", effects={"self._connect_single_cell_nd": ("T", ("R", "CellNd"), ("L", LI))}),
+            # the 2-D paths: literal offset tables (hex: chosen by the parity of coordinate[1]) handed to every cell
+            *[Fn("C07", "mesa/discrete_space/grid.py", f"{klass}._connect_cells_2d", f"{name}_connect_cells_2d", {},
+                 self_rec="GridCells2d", effects={"self._connect_single_cell_2d": ("T", ("R", "Cell2d"), ("L", I2))},
+                 effect_params={"self._connect_single_cell_2d": ("cell", "offsets")})
+              for klass, name in (("OrthogonalMooreGrid", "moore"), ("OrthogonalVonNeumannGrid", "vn"), ("HexGrid", "hex"))],
         ],
     },
     "Legacy": {
@@ -99,12 +105,15 @@ REGISTRY = {
     "C07": {
         "groups": ["Cells"],
         "functions": ["Grid._connect_single_cell_2d", "Grid._connect_single_cell_nd",
-                      "OrthogonalMooreGrid._connect_cells_nd", "OrthogonalVonNeumannGrid._connect_cells_nd"],
+                      "OrthogonalMooreGrid._connect_cells_nd", "OrthogonalVonNeumannGrid._connect_cells_nd",
+                      "OrthogonalMooreGrid._connect_cells_2d", "OrthogonalVonNeumannGrid._connect_cells_2d",
+                      "HexGrid._connect_cells_2d"],
         "lean_modules": ["MesaModel.Proofs.XlateCells"],
         "theorems": ["Mesa.Cells." + t for t in (
             "C07_gen_connect_single_cell_2d_eq_model", "C07_gen_connect_single_cell_nd_eq_model",
             "C07_gen_moore_connect_cells_nd_eq_model", "C07_gen_vn_connect_cells_nd_eq_model",
-            "C07_connect_spec_generated", "C07_offsets_spec_generated")],
+            "C07_gen_connect_cells_2d_eq_model", "C07_connect_spec_generated", "C07_offsets_spec_generated",
+            "C07_grid_connections_generated_2d", "C07_grid_connections_generated_nd")],
     },
 }
 
